@@ -600,7 +600,7 @@ fn gen_flow_many(t: &mut Tape, tapes: &[Vec<u32>]) -> RawCase {
     // all first halves together fit the connection window
     cfg.conn_window = Some(1 << 20);
     let max_n = (1_000_000 / w as usize).min(1400);
-    let n = (max_n / 4) + t.below(max_n - max_n / 4);
+    let n = if t.chance(1, 3) { (max_n / 2) + t.below(max_n / 2) } else { 60 + t.below(340) };
     let blocked = t.bool();
     let mut script: Vec<PStep> = vec![PStep::Barrier];
     if blocked {
@@ -611,8 +611,10 @@ fn gen_flow_many(t: &mut Tape, tapes: &[Vec<u32>]) -> RawCase {
         let id = 2 * k as u32 + 1;
         let mut r = default_req(id);
         r.req_reader = Reader::Eager;
-        // (answers are small or none: this is about the updates)
-        r.resp_delay = if t.chance(1, 8) { 0 } else { 3000 };
+        // (every request is answered at once with a small body: the answers compete with the updates for the
+        // codec's write buffer)
+        r.resp_delay = 0;
+        r.resp.chunks = vec![Chunk { len: 20 + t.below(60), reserve: false, cuts: vec![], delay: 0, hold: 0 }];
         reqs.push(r);
         script.push(hdr(id, "POST", false));
         script.push(PStep::Data { stream: id, len: w as usize, pad: None, end_stream: false, force: false });
@@ -639,14 +641,14 @@ fn gen_flow_many(t: &mut Tape, tapes: &[Vec<u32>]) -> RawCase {
 
 pub fn gen_flow_server(tapes: &[Vec<u32>]) -> RawCase {
     let mut t = Tape::new(&tapes[0]);
-    if t.chance(1, 24) {
+    if t.chance(1, 40) {
         return gen_flow_many(&mut t, tapes);
     }
     let mut cfg = plain_cfg();
     if t.chance(1, 2) {
         cfg.initial_window = Some(*t.pick(&[1000u32, 20000, 65535, 100_000]));
     }
-    if t.chance(1, 3) {
+    if t.chance(1, 2) {
         cfg.conn_window = Some(*t.pick(&[100_000u32, 1 << 20]));
     }
     if t.chance(1, 4) {
@@ -687,7 +689,7 @@ pub fn gen_flow_server(tapes: &[Vec<u32>]) -> RawCase {
         let len = match t.weighted(&[3, 3, 2]) {
             0 => 0,
             1 => 1 + t.below(300),
-            _ => *t.pick(&[1000usize, 5000, 16384, 30000]),
+            _ => *t.pick(&[1000usize, 5000, 16384, 30000, 70000]),
         };
         match t.weighted(&[8, 2, 1]) {
             0 => script.push(PStep::Data { stream: id, len, pad, end_stream: false, force: false }),
@@ -712,7 +714,7 @@ pub fn gen_flow_server(tapes: &[Vec<u32>]) -> RawCase {
     script.push(PStep::Barrier);
     let spec = RawSpec { peer_settings: vec![], script, grant: Grant::Eager, close_at_end: false };
     let mut b = base(&mut t, tapes, cfg, reqs);
-    let nops = t.below(3);
+    let nops = if t.bool() { 0 } else { 1 + t.below(2) };
     for _ in 0..nops {
         let cmd = if t.bool() { ConnCmd::SetTargetWindow(*t.pick(&[65535u32, 70000, 200_000, 1 << 20])) } else { ConnCmd::SetInitialWindow(*t.pick(&[500u32, 10000, 65535, 200_000])) };
         b.ops.push(ConnOp { side: Side::Server, after_events: t.below(25), cmd, gap: 0 });
@@ -733,17 +735,24 @@ pub fn raw_c03(case: &RawCase, rr: &RawRun, tap: &Tap, out: &mut Outcome) {
 /// whatever it released must have been advertised again (else the sender is blocked for good — capacity leaked).
 /// Judged only without local window reconfiguration (the initial window in force is then the configured one).
 pub fn check_exhausted_windows(case: &RawCase, rr: &RawRun, tap: &Tap, out: &mut Outcome) {
-    let e = case.h2_side;
-    if !case.base.ops.is_empty() || rr.run.end != RunEnd::Quiescent || rr.run.panic.is_some() {
+    check_exhausted_side(case.h2_side, &case.base, &rr.run, tap, out)
+}
+
+pub fn check_exhausted_side(e: Side, base: &PairCase, run: &PairRun, tap: &Tap, out: &mut Outcome) {
+    struct R<'a> {
+        run: &'a PairRun,
+    }
+    let rr = R { run };
+    if base.ops.iter().any(|o| matches!(o.cmd, ConnCmd::SetInitialWindow(_) | ConnCmd::SetTargetWindow(_) | ConnCmd::GracefulShutdown | ConnCmd::AbruptShutdown(_) | ConnCmd::DropConnection)) || base.fault.is_some() || rr.run.end != RunEnd::Quiescent || rr.run.panic.is_some() {
         return;
     }
-    if rr.run.events.iter().any(|ev| ev.side == e && matches!(&ev.api, Api::ConnDone { .. })) {
+    if rr.run.events.iter().any(|ev| matches!(&ev.api, Api::ConnDone { .. }) || matches!(&ev.api, Api::ConnOp { op } if op.starts_with("drop(Connection)"))) {
         return;
     }
-    if tap.frames.iter().any(|f| f.from == e && matches!(&f.frame, Ok(Frame::GoAway { .. }))) {
+    if tap.frames.iter().any(|f| matches!(&f.frame, Ok(Frame::GoAway { .. }))) {
         return;
     }
-    let cfg = if e == Side::Server { &case.base.scfg } else { &case.base.ccfg };
+    let cfg = if e == Side::Server { &base.scfg } else { &base.ccfg };
     let iw = cfg.initial_window.unwrap_or(65535) as i64;
     // per stream: flow bytes delivered, increments advertised, ended?
     let mut flow: std::collections::BTreeMap<u32, (i64, i64, bool, i64)> = std::collections::BTreeMap::new();
@@ -758,6 +767,10 @@ pub fn check_exhausted_windows(case: &RawCase, rr: &RawRun, tap: &Tap, out: &mut
                 conn.0 += fr.flow_len() as i64;
             }
             (Ok(Frame::Rst { stream, .. }), _) => {
+                flow.entry(*stream).or_insert((0, 0, false, 0)).2 = true;
+            }
+            // (trailers, or a head that ends the stream)
+            (Ok(Frame::Headers { stream, end_stream: true, .. }), false) => {
                 flow.entry(*stream).or_insert((0, 0, false, 0)).2 = true;
             }
             (Ok(Frame::WinUp { stream: 0, inc, .. }), true) => conn.1 += *inc as i64,
@@ -829,12 +842,20 @@ impl Engine for FlowEngine {
         400
     }
     fn run(&self, case: &RawCase) -> Outcome {
+        let t0 = std::time::Instant::now();
         let rr = run_raw(case);
+        let t1 = t0.elapsed();
         let an = analyse_raw(case, &rr);
+        let t2 = t0.elapsed();
         let mut out = Outcome::default();
         common_raw_oracles(case, &rr, &an, &mut out);
+        let t3 = t0.elapsed();
         raw_c03(case, &rr, &an.tap, &mut out);
+        let t4 = t0.elapsed();
         check_exhausted_windows(case, &rr, &an.tap, &mut out);
+        if std::env::var("VERIF_TIMING").is_ok() {
+            eprintln!("timing: sim {:?} analyse {:?} common {:?} c03 {:?} exhausted {:?}", t1, t2 - t1, t3 - t2, t4 - t3, t0.elapsed() - t4);
+        }
         let padded = an.tap.frames.iter().any(|f| f.from != case.h2_side && matches!(&f.frame, Ok(Frame::Data { pad: Some(_), .. })));
         let discard = rr.run.events.iter().any(|e| matches!(&e.api, Api::DroppedRecv | Api::SentReset { .. })) || an.tap.frames.iter().any(|f| matches!(&f.frame, Ok(Frame::Rst { .. })));
         if padded {
